@@ -35,13 +35,17 @@ StepOK == /\ l <= Len(Cur.ev)
           /\ LET e == Cur.ev[l] IN
              /\ Enabled(e)
              /\ ToJson(Obs(FsAfter(e), cas.n)) = ToJson(e.obs)
-             /\ e.a[1] = "parse" => ToJson(DoParse(fs, e.a[2])) = ToJson(e.out)
+             \* (a code base that repairs DevUnreadableError must not be rejected: for such an element the
+             \* repaired outcome is accepted as well)
+             /\ e.a[1] = "parse" => \/ ToJson(DoParse(fs, e.a[2])) = ToJson(e.out)
+                                    \/ /\ DevUnreadableError(cas, e.a[2])
+                                       /\ ToJson(Local(cas, e.a[2])) = ToJson(e.out)
 TStep == /\ StepOK
          /\ LET e == Cur.ev[l] IN
             /\ fs' = FsAfter(e)
             /\ phase' = IF e.a[1] = "submit" THEN "run" ELSE phase
             /\ ran' = IF e.a[1] = "work" THEN [ran EXCEPT ![e.a[2]] = @ + 1] ELSE ran
-            /\ parsed' = IF e.a[1] = "parse" THEN [parsed EXCEPT ![e.a[2]] = DoParse(fs, e.a[2])] ELSE parsed
+            /\ parsed' = IF e.a[1] = "parse" THEN [parsed EXCEPT ![e.a[2]] = <<e.out[1], e.out[2], e.out[3]>>] ELSE parsed
             /\ act' = <<e.a[1], e.a[2]>>
          /\ l' = l + 1 /\ UNCHANGED <<cas, tid>>
 TNextTrace == /\ ~StepOK
